@@ -39,6 +39,13 @@ CONFIGS = {
     'cg_two_frags_orders': dict(frags='{#test=[<][#A][#B][$][#C][>],#frag2=[$]=[#P][#D][<]}',
                                 kw=dict(fragment_masses={'test': 42, 'frag2': 84}, polymer_reactivities={'$': 0.4, '>': 0.3, '<': 0.3, '$2': 0.2}),
                                 aa=False, sym_mass=True),
+    # directed descriptors whose labels end in digits and differ only there; a long label; an unlabelled pair next to them
+    'digit_labels': dict(frags='{#M=[>A1][#a][#c][<A1],#N=[>A2][#b][<A2],#K=[>][#k][<],#L=[>chainEnd9][#l][<chainEnd9]}',
+                         kw=dict(fragment_masses={'M': 10, 'N': 20, 'K': 30, 'L': 40},
+                                 polymer_reactivities={'>A11': 0.2, '<A11': 0.2, '>A21': 0.1, '<A21': 0.1, '>1': 0.1, '<1': 0.1, '>chainEnd91': 0.1, '<chainEnd91': 0.1}),   # (keys with the order written out: a label that ends in a digit would be read as the order)
+                         aa=False, sym_mass=True),
+    # same heavy atoms, different saturation (element-derived masses differ by the hydrogens only)
+    'same_heavy_atoms': dict(frags='{#BU=[>]CC=CC[<],#BA=[>]CCCC[<],#BY=[>]CC#CC[<]}', kw=dict(polymer_reactivities={'>': 0.5, '<': 0.5}), aa=True),
     'missing_key': dict(frags='{#A=[$A]CC[$B],#B=[$A]O[$C]}', kw=dict(polymer_reactivities={'$A': 1.0}), aa=True),
     # a table row that also lists descriptors which are no valid partners (only complements may ever be chosen)
     'table_with_foreign_keys': dict(frags='{#A=[>]CC[<],#B=[>]C(C)C[<]O}',
@@ -66,7 +73,7 @@ CONFIGS = {
                                 polymer_reactivities={'<': 0.3, '>': 0.3, '$A': 0.4, '$B': 0.0},
                                 fragment_reactivities={'$A': {'$A': 0.0, '$B': 1.0}, '$B': {'$A': 1.0, '$B': 0.0}}), aa=False),
 }
-QUICK = ['peo_linear', 'copolymer_labels', 'brush_terminal', 'cg_dextran', 'cg_terminal', 'cg_two_frags_orders', 'missing_key', 'table_with_foreign_keys', 'double_terminal', 'aa_with_masses', 'star_core', 'weighted_atoms', 'two_labels_on_one_atom', 'vinylimidazole']
+QUICK = ['peo_linear', 'copolymer_labels', 'brush_terminal', 'cg_dextran', 'cg_terminal', 'cg_two_frags_orders', 'missing_key', 'table_with_foreign_keys', 'double_terminal', 'aa_with_masses', 'star_core', 'weighted_atoms', 'two_labels_on_one_atom', 'vinylimidazole', 'digit_labels', 'same_heavy_atoms']
 
 
 class NoChoice(Exception):
@@ -197,6 +204,10 @@ class SamplerProp(core.Prop):
                 out.append({'cfg': n, 'kmax': self.KMAX[tier] - 1, 'prefix': [], 'via': 'ctor'})
             if tier != 'quick' or i % 3 == 1:
                 out.append({'cfg': n, 'kmax': self.KMAX[tier] - 1, 'prefix': [], 'via': 'start'})
+        # one deep path class: every draw takes its first option, growth up to 12 added fragments (the stop decision
+        # stays symbolic through the target), so that results with more than ten fragments are seen
+        out.append({'cfg': 'peo_linear', 'kmax': 12, 'prefix': [0] * 40, 'deep': True})
+        out.append({'cfg': 'cg_two_frags_orders', 'kmax': 12, 'prefix': [0] * 40, 'deep': True})
         return out
 
     def build(self, shape):
